@@ -22,15 +22,22 @@ def effAdv (font : List TTObs) (g : TTObs) : Option Int :=
   | some k => (TTObs.find? font k.1).map (·.adv)
   | none => some g.adv
 
-/-- remaining glyphs whose `hmtx` advance or effective advance differs between the font built without (`full`) and with
-    (`cut`) the skip list, or that are new -/
+/-- HYPOTHESIS on the source: the hinting data of glyph `f` is consistent when, with NOTHING skipped, the advance a rasteriser
+    uses is the glyph's own `hmtx` advance (the component flagged USE_MY_METRICS has the advance of the composite).  When the
+    source itself asks for the metrics of a component of another advance, "the" advance of the glyph is ambiguous already
+    without a skip list, and ufo2ft's documented fallback (`autoUseMyMetrics` when the number of components differs from the
+    UFO's) may legitimately resolve it the other way: no demand on the effective advance is made for such a glyph. -/
+def consistentTT (full : List TTObs) (f : TTObs) : Bool := effAdv full f == some f.adv
+
+/-- remaining glyphs that are new, or whose `hmtx` advance differs between the font built without (`full`) and with (`cut`)
+    the skip list, or - for glyphs with consistent hinting data - whose effective advance differs -/
 def ttWrong (full cut : List TTObs) : List String :=
   (cut.filter (fun g => match TTObs.find? full g.name with
     | none => true
-    | some f => !(g.adv == f.adv && effAdv cut g == effAdv full f && (effAdv cut g).isSome))).map (·.name)
+    | some f => !(g.adv == f.adv && (!consistentTT full f || effAdv cut g == effAdv full f)))).map (·.name)
 
-/-- skipped glyphs are gone, the order of the others is kept, and every remaining glyph keeps its advance — the `hmtx` one
-    and the one a rasteriser uses -/
+/-- skipped glyphs are gone, the order of the others is kept, and every remaining glyph keeps its advance - the `hmtx` one
+    and (consistent hinting data) the one a rasteriser uses -/
 def holdsTT (skip : List String) (full cut : List TTObs) : Bool :=
   holdsOrder skip (full.map (·.name)) (cut.map (·.name)) && (ttWrong full cut).isEmpty
 
